@@ -50,6 +50,11 @@ def template_program():
         for k2 in KINDS:
             if k2 != k:
                 fn("Conv_%s_%s" % (k, k2), "(x %s) %s" % (t, GOTYPE[k2]), "%s(x)" % GOTYPE[k2])
+    # phase 4: float64 -> 64-bit kinds (constructor path) and 64-bit kinds -> float64 ($flatten64)
+    for k2 in KINDS:
+        if k2 in IS64:
+            fn("Conv_Float64_%s" % k2, "(x float64) %s" % GOTYPE[k2], "%s(x)" % GOTYPE[k2])
+            fn("Conv_%s_Float64" % k2, "(x %s) float64" % GOTYPE[k2], "float64(x)")
     L.append("")
     L.append("var sink interface{}")
     L.append("")
@@ -234,6 +239,9 @@ def generate(workdir, repo):
     for nm, src, dst, ty in (("g_conv_nn", k32, k32, "jsnum -> res jsnum"), ("g_conv_no", k32, k64l, "jsnum -> res jso"),
                              ("g_conv_on", k64l, k32, "jso -> res jsnum"), ("g_conv_oo", k64l, k64l, "jso -> res jso")):
         T.append(opt_table(nm, ty, [("%s, %s" % (a, b), "Conv_%s_%s" % (a, b)) for a in src for b in dst if a != b], ("(k1 k2 : kind)", "k1, k2")))
+
+    T.append(opt_table("g_conv_fo", "jsnum -> res jso", [(b, "Conv_Float64_%s" % b) for b in k64l], ("(k2 : kind)", "k2")))
+    T.append(opt_table("g_conv_of", "jso -> res jsnum", [(a, "Conv_%s_Float64" % a) for a in k64l], ("(k1 : kind)", "k1")))
 
     hdr = """(* GENERATED by harness/py/c06_gen.py from the current tree of %s — do not edit, not committed.
    t_<Kind>_<Op>: the JavaScript expression the real compiler emits for `return x <op> y`
